@@ -13,7 +13,14 @@ def run(ctx):
             raise Broken("harness: " + m["detail"])
         if not m["sig"].startswith(sf.HANDLER_SIGS) or "request" in m.get("script", "")[:40] and "noversion" in m.get("script", ""):
             ctx.violation(m["sig"], "%s | script: %s (step %d)" % (m["detail"], m.get("script"), m.get("step", -1)), m)
+    # one layer up: hostile request / stream frames on a call of a real rpc server, a well-behaved client next to it
+    from vlib import rpcfam
+    qr, qsum, nq = rpcfam.run_request(ctx)
     ctx.coverage = {
+        "rpc_layer": {"model": "RpcRequest.tla", "sequences_replayed": qsum["scripts"], "max_frames": nq, "healthy_calls": qsum["healthy_calls"],
+                      "rule": "a wire-level peer opens rpc calls with a request or anything else and then writes well-formed and malformed stream "
+                              "frames; handlers run only for requests, and after every sequence two streaming calls of a well-behaved client on its "
+                              "own connection are served as if nothing had happened (the server's call states are pooled)"},
         "states": r.distinct, "transitions": r.generated, "traces_validated_against_impl": summary["scripts"] + summary.get("scripts_lz4", 0) + summary.get("scripts_stall", 0),
         "scripts_with_stalled_reader": summary.get("scripts_stall", 0),
         "scripts_over_lz4": summary.get("scripts_lz4", 0),
